@@ -1,6 +1,6 @@
 (* Dispatch of driver requests to the per-property executable models. *)
 From Coq Require Import List String.
-From PC Require Import Base.Sexp Run.RC11 Run.RC07.
+From PC Require Import Base.Sexp Run.RC11 Run.RC07 Run.RComp Run.RC08.
 Import ListNotations.
 Local Open Scope string_scope.
 
@@ -9,5 +9,7 @@ Definition run (req : sexp) : sexp :=
   | Li [At "echo"; x] => x
   | Li [At "C11"; x] => run_C11 x
   | Li [At "C07"; x] => run_C07 x
+  | Li [At "comp"; x] => run_comp x
+  | Li [At "C08"; x] => run_C08 x
   | _ => bad_request
   end.
